@@ -43,6 +43,7 @@ type c08Case struct {
 	FailIdx int         `json:"fail_idx,omitempty"`
 	Bound   int         `json:"bound,omitempty"`
 	FnPts   bool        `json:"fn_points,omitempty"` // function entries are scheduling points too
+	MapOrder bool       `json:"map_order,omitempty"` // the iteration order of every map ranged over is explored too (2 deviations)
 	ShardN  int         `json:"shard_n,omitempty"`   // the tree is split over ShardN tasks by the index of the first deviation
 	ShardI  int         `json:"shard_i,omitempty"`
 	Choices []vrt.Point `json:"choices,omitempty"`
@@ -593,8 +594,8 @@ func c08Sched(c *mc.Ctx, cs c08Case, single bool) {
 	}
 	ex := &mc.Explorer{
 		Ctx:   c,
-		Opts:  vrt.Options{Sched: true, MaxSteps: 200000, FnPoints: cs.FnPts},
-		Bound: map[string]int{"sched": cs.Bound},
+		Opts:  vrt.Options{Sched: true, MaxSteps: 200000, FnPoints: cs.FnPts, MapChoice: cs.MapOrder},
+		Bound: map[string]int{"sched": cs.Bound, "map": 2},
 		ShardN: cs.ShardN, ShardI: cs.ShardI,
 		Body:  func() any { return run(cs.Cpus) },
 	}
@@ -762,6 +763,13 @@ func c08Tasks(tier string) []mc.Task {
 			cs3.Cpus = 3
 			ts = append(ts, mc.Task{Name: fmt.Sprintf("sched#fnpoints/%s/cpus3", model), Run: func(c *mc.Ctx) { c08Sched(c, cs3, false) }})
 		}
+	}
+	// iteration order of Go maps: on alignments whose base frequencies are sums of thirds (three-fold codes),
+	// any map ranged over while the model is initialised or the matrix computed is iterated in every order
+	// within two deviations from the sorted one: the result must be the same bits
+	for _, model := range []string{"f81", "f84", "tn93", "pdist"} {
+		cs := c08Case{Kind: "sched", Seqs: []string{"ABVDHC", "CHBVDA", "ADHBVV"}, Model: model, Cpus: 1, Bound: 0, MapOrder: true}
+		ts = append(ts, mc.Task{Name: fmt.Sprintf("sched#maporder/%s", model), Run: func(c *mc.Ctx) { c08Sched(c, cs, false) }})
 	}
 	// full-buffer path: 15 sequences = 105 pairs > channel capacity 100
 	{
